@@ -135,6 +135,7 @@ pub struct Pair {
     pub fe: Frontend,
     pub fe_fd: RawFd,
     pub server: Server,
+    pub max_queues: u64,
 }
 
 impl Pair {
@@ -143,7 +144,7 @@ impl Pair {
         let fe_fd = peer.as_raw_fd();
         let fe = Frontend::from_stream(peer, max_queues);
         coop::set_pump(fe_fd, server.pump());
-        Pair { fe, fe_fd, server }
+        Pair { fe, fe_fd, server, max_queues }
     }
 
     /// Classify hangs recorded since the last call: (frontend_hung, server_hung).
